@@ -43,12 +43,20 @@ type supProbe struct {
 	act.Supervisor
 	I    *actors.Inst
 	spec act.SupervisorSpec
+	tp   bool
+	// initFail: error to return from Init, or "init-panic"
+	initFail any
 }
 
 func (s *supProbe) Init(args ...any) (act.SupervisorSpec, error) {
 	x := s.I.Enter("init")
 	defer s.I.Exit(x)
 	s.I.PID = s.PID()
+	if e, ok := s.initFail.(error); ok {
+		return s.spec, e
+	} else if s.initFail != nil {
+		panic("c05 requested panic in Init")
+	}
 	return s.spec, nil
 }
 
@@ -69,18 +77,29 @@ func (s *supProbe) Terminate(reason error) {
 	x := s.I.Enter("terminate")
 	defer s.I.Exit(x)
 	s.I.Set(x, func(e *actors.Ev) { e.Err = reason })
+	if s.tp {
+		termPanic(s.I)
+	}
 }
 
 type poolProbe struct {
 	act.Pool
 	I    *actors.Inst
 	opts act.PoolOptions
+	tp   bool
+	// initFail: error to return from Init, or "init-panic"
+	initFail any
 }
 
 func (p *poolProbe) Init(args ...any) (act.PoolOptions, error) {
 	x := p.I.Enter("init")
 	defer p.I.Exit(x)
 	p.I.PID = p.PID()
+	if e, ok := p.initFail.(error); ok {
+		return p.opts, e
+	} else if p.initFail != nil {
+		panic("c05 requested panic in Init")
+	}
 	return p.opts, nil
 }
 
@@ -101,6 +120,9 @@ func (p *poolProbe) Terminate(reason error) {
 	x := p.I.Enter("terminate")
 	defer p.I.Exit(x)
 	p.I.Set(x, func(e *actors.Ev) { e.Err = reason })
+	if p.tp {
+		termPanic(p.I)
+	}
 }
 
 type bcase struct {
@@ -108,10 +130,15 @@ type bcase struct {
 	kind string // sup-ofo | sup-afo | sup-rfo | pool
 	pos  string // idle | child-busy (one child / worker parked in a handler)
 	acts []string
+	tp   bool // the terminate callbacks (supervisor/pool and children) panic on their first entry
 }
 
 func (c bcase) id() string {
-	return fmt.Sprintf("%s/%s/%s/%s", c.pfx, c.kind, c.pos, strings.Join(c.acts, "+"))
+	k := c.kind
+	if c.tp {
+		k += "!"
+	}
+	return fmt.Sprintf("%s/%s/%s/%s", c.pfx, k, c.pos, strings.Join(c.acts, "+"))
 }
 
 var bseq atomic.Int64
@@ -127,14 +154,14 @@ func runBehaviour(c bcase, scenario string) {
 	var kids []*actors.Inst
 	reg := func(i *actors.Inst) { cmu.Lock(); kids = append(kids, i); cmu.Unlock() }
 	kidsNow := func() []*actors.Inst { cmu.Lock(); defer cmu.Unlock(); return append([]*actors.Inst(nil), kids...) }
-	childF := actors.NewProbeMulti(id+"/child", victimHooks(false), reg)
+	childF := actors.NewProbeMulti(id+"/child", victimHooksT(false, c.tp), reg)
 
 	inst := &actors.Inst{Label: id}
 	seq := bseq.Add(1) // child spec names are registered process names: keep them unique per case
 	var f gen.ProcessFactory
 	if c.kind == "pool" {
 		f = func() gen.ProcessBehavior {
-			return &poolProbe{I: inst, opts: act.PoolOptions{PoolSize: 3, WorkerFactory: childF}}
+			return &poolProbe{I: inst, tp: c.tp, opts: act.PoolOptions{PoolSize: 3, WorkerFactory: childF}}
 		}
 	} else {
 		spec := act.SupervisorSpec{
@@ -147,7 +174,7 @@ func runBehaviour(c bcase, scenario string) {
 			Restart:             act.SupervisorRestart{Strategy: act.SupervisorStrategyTemporary},
 			DisableAutoShutdown: true,
 		}
-		f = func() gen.ProcessBehavior { return &supProbe{I: inst, spec: spec} }
+		f = func() gen.ProcessBehavior { return &supProbe{I: inst, spec: spec, tp: c.tp} }
 	}
 	pid, err := n.Spawn(f, gen.ProcessOptions{})
 	if err != nil {
@@ -353,7 +380,15 @@ func behaviourCases() []bcase {
 	for _, kind := range []string{"sup-ofo", "sup-afo", "sup-rfo", "pool"} {
 		for _, pos := range []string{"idle", "child-busy"} {
 			for _, s := range seqs {
-				cs = append(cs, bcase{"B", kind, pos, s})
+				cs = append(cs, bcase{"B", kind, pos, s, false})
+			}
+			// exit signals with every reason class, from the parent (the node) and from a non-parent
+			for _, rn := range []string{"normal", "shutdown", "kill", "panic", "custom"} {
+				cs = append(cs, bcase{"B", kind, pos, []string{"nexit=" + rn}, false}, bcase{"B", kind, pos, []string{"fexit=" + rn}, false})
+			}
+			// terminate callbacks that panic
+			for _, s := range [][]string{{"kill"}, {"nexit"}, {"fexit"}, {"herrmsg"}, {"hpanicmsg"}, {"nexit", "kill"}, {"childkill", "nexit"}, {"fexit=normal"}} {
+				cs = append(cs, bcase{"P", kind, pos, s, true})
 			}
 		}
 	}
